@@ -570,8 +570,39 @@ func (r *router) forward(
 	if err != nil {
 		return nil, fmt.Errorf("failed to exchange, %w", err)
 	}
+	if !replyMatchesQuestion(resp, q) {
+		dnsmsg.ReleaseMsg(resp)
+		return nil, errors.New("upstream reply is not about the question asked")
+	}
 	dnsmsg.RemoveEDNS0(resp)
 	return resp, nil
+}
+
+// replyMatchesQuestion reports whether the question section of an upstream reply
+// is acceptable for q: it is empty, or it is exactly q (name compared ASCII
+// case-insensitively). Anything else must not be relayed or cached under q.
+func replyMatchesQuestion(resp *dnsmsg.Msg, q *dnsmsg.Question) bool {
+	if len(resp.Questions) > 1 {
+		return false
+	}
+	for _, rq := range resp.Questions {
+		if rq.Type != q.Type || rq.Class != q.Class || len(rq.Name) != len(q.Name) {
+			return false
+		}
+		for i, c := range rq.Name {
+			d := q.Name[i]
+			if 'A' <= c && c <= 'Z' {
+				c += 'a' - 'A'
+			}
+			if 'A' <= d && d <= 'Z' {
+				d += 'a' - 'A'
+			}
+			if c != d {
+				return false
+			}
+		}
+	}
+	return true
 }
 
 func makeEmptyResp(q *dnsmsg.Question, rc *RequestContext, rcode uint16) {
